@@ -106,6 +106,11 @@ def check(ctx, adt=T.ANIM_ADT, F=None):
     ctx.ob("R1", "animator-state/no-extra-fields", not extra,
            "the animator must carry no state besides (timelines, state, values, pause record, time): extra %s" % extra,
            adt_["span"], what="extra-state-fields")
+    # R4: every evaluation of a timeline with keyframes writes its values - before the start, at any position and after the
+    # end (an evaluation that is skipped leaves what the previous frame wrote: frame-rate dependence) (C10/R1)
+    if adt == T.ANIM_ADT:
+        from rules import c10
+        c10.rules_prepare_frame(ctx, "R4")
     # R3: what advance evaluates is a merged timeline: it must apply every component on every evaluation, whatever the time
     # (a component skipped "because it has ended" leaves whatever the previous frame wrote) (C12/R1)
     if adt == T.ANIM_ADT:
